@@ -63,10 +63,14 @@ fn build_steps(
   let loader = ScriptedLoader::new(&world);
   let mut graph = ModuleGraph::new(cfg.kind);
   let mut loads = vec![];
+  // multi-step builds share one capturing analyzer, the way embedders keep one across builds
+  let capturing = deno_graph::ast::CapturingModuleAnalyzer::default();
+  let analyzer: Option<&dyn deno_graph::analysis::ModuleAnalyzer> =
+    if steps.len() > 1 { Some(&capturing) } else { None };
   for (i, roots) in steps.iter().enumerate() {
     let imports: &[(String, Vec<String>)] = if i == 0 { &gw.imports } else { &[] };
     catch(|| {
-      run_build(&mut graph, roots, imports, &loader, cfg, None, Exec::Inline, None);
+      run_build_with_analyzer(&mut graph, roots, imports, &loader, cfg, None, Exec::Inline, None, analyzer);
     })?;
     loads.push(loader.take_log().len());
   }
@@ -372,8 +376,17 @@ fn reload_case(i: usize, seed: u64, acc: &mut Acc) {
   let world0 = gw.to_world();
   let loader0 = ScriptedLoader::new(&world0);
   let mut g = ModuleGraph::new(kind);
+  // half of the histories keep one capturing analyzer (parsed-source store) for the build and every
+  // reload, as the CLI / language server do; the from-scratch comparison never shares it
+  let capturing = deno_graph::ast::CapturingModuleAnalyzer::default();
+  let analyzer: Option<&dyn deno_graph::analysis::ModuleAnalyzer> = if rng.coin() {
+    acc.count("histories_sharing_a_capturing_analyzer");
+    Some(&capturing)
+  } else {
+    None
+  };
   if let Err(p) = catch(|| {
-    run_build(&mut g, &gw.roots, &gw.imports, &loader0, &cfg, None, Exec::Inline, None)
+    run_build_with_analyzer(&mut g, &gw.roots, &gw.imports, &loader0, &cfg, None, Exec::Inline, None, analyzer)
   }) {
     acc.violation(format!("panic/{}", p.signature()), p.message.clone(), json!({"world": gw.to_json()}));
     return;
@@ -432,7 +445,7 @@ fn reload_case(i: usize, seed: u64, acc: &mut Acc) {
     let loader = ScriptedLoader::new(&world);
     let ctx = json!({"world_after_edits": gw.to_json(), "history": history, "kind": format!("{:?}", kind)});
     if let Err(p) = catch(|| {
-      run_build(&mut g, &[], &[], &loader, &cfg, None, Exec::Inline, Some(&reload_names))
+      run_build_with_analyzer(&mut g, &[], &[], &loader, &cfg, None, Exec::Inline, Some(&reload_names), analyzer)
     }) {
       acc.violation(format!("panic/{}", p.signature()), p.message.clone(), ctx);
       return;
